@@ -86,7 +86,7 @@ def _plan(draw, max_rows):
     if h == "quantile":
         hx["args"]["q"] = draw(st.sampled_from([0, 0.25, 0.5, 0.9, 1]))
     if h in ("std", "var") and draw(st.booleans()):
-        hx["args"]["ddof"] = draw(st.sampled_from([0, 1]))
+        hx["args"]["ddof"] = draw(st.sampled_from([0, 1, 2, 3]))
     plan = {"frame": {"n": n, "cols": cols}, "by": [f"g{j}" for j in draw(st.permutations(range(nk)))], "hx": hx}
     draw(gen.decorate(plan["frame"]))
     if plan["frame"].get("via") == "marked_by_group_by":
